@@ -783,8 +783,82 @@ def ground_csv_family():
     return out
 
 
+def ground_malformed_values():
+    """malformed values are rejected, whichever source they come from (evaluated natively on exhaustive small families):
+    numbers that are no time limit / error code / length; toml values whose type or choice does not fit a plain option"""
+    import dataclasses
+
+    out = []
+    accepted = []
+    for text in ("nan", "inf", "-inf", "-1", "-5s", "-0.5ms", "1e400", "nans", "infm", "-1h", "--1", "1ss", ""):
+        try:
+            accepted.append((text, hcfg.ParseTimeout.parse(text)))
+        except ValueError:
+            pass
+    out.append(("ParseTimeout rejects durations that are negative, infinite or not a number", not accepted, f"accepted: {accepted[:4]}"))
+    bad = []
+    for text in ("0", "1", "100", "2.5s", "250ms", "1m", "1h", "0s", "0.001"):
+        try:
+            v = hcfg.ParseTimeout.parse(text)
+            if not (0 <= v < float("inf")) or hcfg.ParseTimeout.parse(hcfg.ParseTimeout.unparse(v)) != v:
+                bad.append((text, v))
+        except ValueError as e:
+            bad.append((text, str(e)))
+    out.append(("ParseTimeout accepts the well-formed durations and they survive unparse/parse", not bad, f"{bad[:3]}"))
+    accepted = []
+    for text in ("-1", "0x11,-2", "-0x1", "1,-1"):
+        try:
+            accepted.append((text, hcfg.ParseErrorCodes.parse(text)))
+        except ValueError:
+            pass
+    out.append(("ParseErrorCodes rejects negative codes (every accepted set survives unparse/parse)", not accepted, f"accepted: {accepted[:4]}"))
+    accepted = []
+    for text in ("-1", "0,-2", "1,2,-3"):
+        try:
+            accepted.append((text, hcfg.ParseCSVInt.parse(text)))
+        except ValueError:
+            pass
+    out.append(("ParseCSVInt (default array / bytes lengths) rejects negative lengths, as ParseArrayLengths does", not accepted, f"accepted: {accepted[:4]}"))
+    # toml values of the plain options (no custom action): bool / int / str, some with choices
+    tp = hcfg.toml_parser()
+    wrong = {bool: ["false", 0, 1, 1.0], int: ["3", 2.5, True, [1]], str: [3, True, 1.5, ["a"]]}
+    right = {bool: [True, False], int: [0, 7], str: ["abc"]}
+    bad, n = [], 0
+    for f in dataclasses.fields(hcfg.Config):
+        if f.name.startswith("_") or f.metadata.get("action") or f.type not in wrong:
+            continue
+        key = f.name.replace("_", "-")
+        for v in wrong[f.type]:
+            n += 1
+            try:
+                d = tp.parse_dict({"global": {key: v}})
+                bad.append((key, v, "accepted as", d.get(f.name)))
+            except (ValueError, TypeError):
+                pass
+            except SystemExit:
+                pass
+        choices = f.metadata.get("choices")
+        for v in (list(choices) if choices else right[f.type]):
+            n += 1
+            try:
+                d = tp.parse_dict({"global": {key: v}})
+                if d != {f.name: v}:
+                    bad.append((key, v, "read as", d))
+            except BaseException as e:  # noqa
+                bad.append((key, v, "rejected", f"{type(e).__name__}: {e}"))
+        if choices:
+            n += 1
+            try:
+                d = tp.parse_dict({"global": {key: "no-such-choice"}})
+                bad.append((key, "no-such-choice", "accepted as", d.get(f.name)))
+            except (ValueError, SystemExit):
+                pass
+    out.append((f"toml config file: a value whose type or choice does not fit a plain option is rejected, a fitting one is taken as it is ({n} option/value pairs)", not bad, f"first disagreements: {str(bad[:3])[:300]}"))
+    return out
+
+
 def grounds():
-    return [Ground(f"{PROP}/config.parse_csv#family", ground_csv_family, sources=("halmos.config:parse_csv", "halmos.config:ParseCSVInt.parse", "halmos.config:ParseCSVInt.unparse", "halmos.config:ParseArrayLengths.parse", "halmos.config:ParseArrayLengths.unparse")), Ground(f"{PROP}/config.Config.resolved_solver_command#stacks", ground_solver_stacks, sources=("halmos.config:Config.resolved_solver_command", "halmos.config:Config.__getattribute__")), Ground(f"{PROP}/config.arg_parser#not-given-is-None", ground_parser_defaults, sources=("halmos.config:_create_arg_parser",))]
+    return [Ground(f"{PROP}/config.malformed-values", ground_malformed_values, sources=("halmos.config:ParseTimeout.parse", "halmos.config:ParseErrorCodes.parse", "halmos.config:ParseCSVInt.parse", "halmos.config:TomlParser.parse_dict")), Ground(f"{PROP}/config.parse_csv#family", ground_csv_family, sources=("halmos.config:parse_csv", "halmos.config:ParseCSVInt.parse", "halmos.config:ParseCSVInt.unparse", "halmos.config:ParseArrayLengths.parse", "halmos.config:ParseArrayLengths.unparse")), Ground(f"{PROP}/config.Config.resolved_solver_command#stacks", ground_solver_stacks, sources=("halmos.config:Config.resolved_solver_command", "halmos.config:Config.__getattribute__")), Ground(f"{PROP}/config.arg_parser#not-given-is-None", ground_parser_defaults, sources=("halmos.config:_create_arg_parser",))]
 
 
 def bounded():
